@@ -1938,6 +1938,116 @@ theorem perMinute_inv (fuel : Nat) (sym : Nat) (real : Candle) (t0 : Int) (rest 
           · rw [h.2]
         exact key (fixJump p c) this
 
+/-! ### the end of a chunk: `add_multiple_1m_candles` -/
+
+/-- several NEW MINUTEs at once inside one window: `StoreInv` before, `PreInv` after, provided none of the new minutes
+    but the last one completes a window -/
+theorem pre_of_new_minutes (m : Nat) (hm : 0 < m) (long : List Candle) (cs : List Candle) :
+    ∀ (P : List Candle), cs ≠ [] → StoreInv m P long →
+      (∀ j, j + 1 < cs.length → (P.length + j + 1) % m ≠ 0) → PreInv m (P ++ cs) long := by
+  induction cs with
+  | nil => intro P h; exact absurd rfl h
+  | cons c more ih =>
+    intro P _ hinv hwin
+    have h1 := pre_of_new_minute m P long c hm hinv
+    by_cases hmore : more = []
+    · subst hmore; exact h1
+    · have hnb : (P ++ [c]).length % m ≠ 0 := by
+        have := hwin 0 (by
+          have : 0 < more.length := List.length_pos_iff.mpr hmore
+          simp only [List.length_cons]; omega)
+        simpa using this
+      have h2 := inv_of_pre_forming m (P ++ [c]) long hm hnb h1
+      have := ih (P ++ [c]) hmore h2 (by
+        intro j hj
+        have := hwin (j + 1) (by simp only [List.length_cons]; omega)
+        have hl : (P ++ [c]).length = P.length + 1 := by simp
+        rw [hl]
+        have e1 : P.length + 1 + j + 1 = P.length + (j + 1) + 1 := by omega
+        rw [e1]; exact this)
+      have e2 : P ++ [c] ++ more = P ++ c :: more := by simp
+      rw [← e2]; exact this
+
+/-- `add_multiple_1m_candles` when none of the chunk's minutes is stored yet: they are appended -/
+theorem addMultiple_append (P cs : List Candle) (t0 : Int) (hne : cs ≠ []) (hsp : Spaced t0 (P ++ cs)) :
+    addMultiple1m P cs = .ok (P ++ cs) := by
+  unfold addMultiple1m
+  obtain ⟨c0, rest, rfl⟩ := List.exists_cons_of_ne_nil hne
+  have hl : (c0 :: rest).getLast? = some ((c0 :: rest).getLast (by simp)) := List.getLast?_eq_some_getLast (by simp)
+  rw [List.head?_cons, hl]
+  dsimp only
+  cases hP : P.getLast? with
+  | none => rfl
+  | some last =>
+    have hneP : P ≠ [] := by intro h0; rw [h0] at hP; simp at hP
+    have hpos : 0 < P.length := List.length_pos_iff.mpr hneP
+    have hle : last = P[P.length - 1] := by
+      rw [List.getLast?_eq_getElem?, List.getElem?_eq_getElem (by omega)] at hP
+      injection hP with h; exact h.symm
+    have h1 : last.ts = t0 + 60000 * ((P.length - 1 : Nat) : Int) := by
+      have := hsp (P.length - 1) (by simp; omega)
+      rw [List.getElem_append_left (by omega)] at this
+      rw [hle]; exact this
+    have h2 : c0.ts = t0 + 60000 * ((P.length : Nat) : Int) := by
+      have := hsp P.length (by simp)
+      rw [List.getElem_append_right (by omega)] at this
+      simpa using this
+    have hgt : c0.ts > last.ts := by
+      rw [h1, h2]
+      have : ((P.length - 1 : Nat) : Int) < (P.length : Int) := by exact_mod_cast (by omega : P.length - 1 < P.length)
+      omega
+    simp only [hgt, if_true]
+
+/-- `add_multiple_1m_candles` when every minute of the chunk has been stored already: the rows are rewritten in place -/
+theorem addMultiple_override (P cs : List Candle) (t0 : Int) (hne : cs ≠ []) (hsp : Spaced t0 (P ++ cs)) :
+    addMultiple1m (P ++ cs) cs = .ok (P ++ cs) := by
+  unfold addMultiple1m
+  obtain ⟨c0, rest, rfl⟩ := List.exists_cons_of_ne_nil hne
+  have hl : (c0 :: rest).getLast? = some ((c0 :: rest).getLast (by simp)) := List.getLast?_eq_some_getLast (by simp)
+  have hl2 : (P ++ c0 :: rest).getLast? = some ((c0 :: rest).getLast (by simp)) := by
+    rw [List.getLast?_append_of_ne_nil _ (by simp)]; exact hl
+  rw [List.head?_cons, hl, hl2]
+  dsimp only
+  -- the first row of the chunk is not later than its last row
+  have hidx : ∀ j (h : j < (c0 :: rest).length), (c0 :: rest)[j].ts = t0 + 60000 * ((P.length + j : Nat) : Int) := by
+    intro j hj
+    have := hsp (P.length + j) (by simp at hj ⊢; omega)
+    rw [List.getElem_append_right (by omega)] at this
+    simpa using this
+  have hc0 : c0.ts = t0 + 60000 * ((P.length : Nat) : Int) := by
+    have := hidx 0 (by simp)
+    simp only [List.getElem_cons_zero, Nat.add_zero] at this
+    exact this
+  have hcl : ((c0 :: rest).getLast (by simp)).ts = t0 + 60000 * ((P.length + rest.length : Nat) : Int) := by
+    rw [List.getLast_eq_getElem]
+    have := hidx ((c0 :: rest).length - 1) (by simp)
+    simpa using this
+  have hngt : ¬ c0.ts > ((c0 :: rest).getLast (by simp)).ts := by
+    rw [hc0, hcl]
+    have : ((P.length : Nat) : Int) ≤ ((P.length + rest.length : Nat) : Int) := by exact_mod_cast Nat.le_add_right _ _
+    omega
+  simp only [hngt, if_false]
+  have hget : Py.getIdx (P ++ c0 :: rest) (-(((c0 :: rest).length : Nat) : Int)) = some c0 := by
+    unfold Py.getIdx Py.normIdx
+    have hneg : ¬ (0 ≤ -(((c0 :: rest).length : Nat) : Int)) := by simp; omega
+    simp only [hneg, if_false]
+    have hle : (- -(((c0 :: rest).length : Nat) : Int)).toNat ≤ (P ++ c0 :: rest).length := by simp
+    simp only [hle, if_true]
+    have : (P ++ c0 :: rest).length - (- -(((c0 :: rest).length : Nat) : Int)).toNat = P.length := by simp
+    rw [this]
+    simp
+  rw [hget]
+  dsimp only
+  have hcond : c0.ts ≥ c0.ts ∧ ((c0 :: rest).getLast (by simp)).ts ≥ ((c0 :: rest).getLast (by simp)).ts := ⟨le_refl _, le_refl _⟩
+  simp only [hcond, and_self, if_true]
+  have hov : ((((c0 :: rest).length : Nat) : Int) - (((c0 :: rest).getLast (by simp)).ts - ((c0 :: rest).getLast (by simp)).ts) / 60000) = (((c0 :: rest).length : Nat) : Int) := by
+    simp
+  rw [hov]
+  have hpos : ¬ ((((c0 :: rest).length : Nat) : Int) ≤ 0) := by simp
+  simp only [hpos, if_false, Int.toNat_natCast]
+  have h1 : (P ++ c0 :: rest).length - (c0 :: rest).length = P.length := by simp
+  rw [h1, List.take_left' rfl, List.take_length]
+
 end run
 
 end C07
